@@ -230,6 +230,10 @@ func (p *Proof) VerifyWithChallenge(pk *gabikeys.PublicKey, reconstructedChallen
 	if (*proof)(p).ProofResult("alpha").Cmp(Parameters.bTwoZk) > 0 {
 		return false
 	}
+	// C_r or C_u equal to 0 modulo N make all reconstructed commitments 0 independent of the responses
+	if p.Cr.Sign() <= 0 || p.Cr.Cmp(pk.N) >= 0 || p.Cu.Sign() <= 0 || p.Cu.Cmp(pk.N) >= 0 {
+		return false
+	}
 	if p.SignedAccumulator == nil {
 		return false
 	}
